@@ -308,6 +308,7 @@ func c01Run(c *h.Ctx) {
 	po := PlayOpts{
 		Hands: 6 + c.R.Intn(10),
 		Churn: Churn{BetweenP: 0.6, MidP: 0.12, Rebuy: true, AddOn: true, BuyIn: true, Leave: true, MidTopup: true, MidJoin: true, MidLeaveOther: true, RandomSeat: true, ResumePaused: true, SitOut: true, Batch: true, OverlapOpen: 0.35},
+		Gen:   h.GenOpts{VaryMinCount: true},
 	}
 	if c.R.Intn(3) == 0 {
 		po.Gen.ShortStacks = true
